@@ -130,7 +130,12 @@ Proof.
   unfold abs. rewrite (A j Hj). pose proof (geth_wf s None j I) as W. unfold hwf in W.
   destruct (h_d (geth s j)) as [d|] eqn:Ed; auto.
   destruct (h_cnt (geth s j)) as [c|] eqn:Ec.
-  - destruct W as (Hd & L & _). rewrite Ed in Hd. injection Hd as ->.
+  - destruct W as (Hd & L & _). injection Hd as ->.
     destruct (inv_b _ _ I c L) as (Lt & _). rewrite (B c Lt). reflexivity.
   - destruct W as (Hd & _). congruence.
 Qed.
+
+(* the full statement (also for push_back and copy, whose element assignments go to a block that only the
+   target handle refers to): NOT proved here, correspondence-tested against the value-semantics oracle *)
+Definition Frame_full_stmt := forall s o j, Inv s -> (forall h k v, o <> OWrite h k v) -> j <> op_target o ->
+  abs (r_s (step all_fixed s o)) j = abs s j.
